@@ -126,7 +126,7 @@ def find_mode(data):
         ok = True
         for i in range(0, len(data), 2):
             code = (data[i] << 8) | data[i + 1]
-            if not (0x8140 <= code <= 0x9ffc or 0xe040 <= code <= 0xebbf):
+            if not (0x8140 <= code <= 0x9ffc or 0xe040 <= code <= 0xebbf) or not 0x40 <= data[i + 1] <= 0xfc or data[i + 1] == 0x7f:
                 ok = False
                 break
         if ok:
@@ -162,3 +162,21 @@ def runs_text(rng, n):
             out.append(text(rng, 'byte', k, cls))
         total += k
     return ''.join(out)
+
+
+def kanji_lookalike(rng, npairs):
+    """ISO 8859-1 text (or bytes) whose byte pairs look like Shift JIS double-byte characters: lead byte in
+    81-9F / E0-EB, trail byte anything -- valid trail bytes (40-FC, not 7F) and invalid ones mixed. The boundary
+    between kanji detection and byte mode."""
+    out = bytearray()
+    for _ in range(max(1, npairs)):
+        lead = rng.choice((rng.randint(0x81, 0x9f), rng.randint(0xe0, 0xeb)))
+        r = rng.random()
+        if r < 0.5:
+            trail = rng.randint(0x40, 0xfc)
+        elif r < 0.8:
+            trail = rng.randint(0x20, 0x3f)
+        else:
+            trail = rng.choice((0x7f, 0xfd, 0xfe, 0xff, 0x00, 0x30))
+        out += bytes((lead, trail))
+    return bytes(out)
